@@ -21,7 +21,7 @@ import re
 import sys
 
 sys.path.insert(0, os.path.dirname(os.path.abspath(__file__)))
-from translate import ParseFailure, read, strip_comments, cut_tests, REPO  # noqa: E402
+from translate import ParseFailure, read, strip_comments, cut_tests, impl_blocks, REPO  # noqa: E402
 
 
 def fn_bodies(src):
@@ -223,6 +223,9 @@ def facts():
     f.update(macro_facts())
     f.update(iter_facts())
     f.update(resolve_facts())
+    adv = advance_facts()
+    f["views_consume_one_column_per_present_component"] = adv["views_consume_one_column_per_present_component"]
+    f["advance_sites"] = adv["advance_sites"]
     return f
 
 
@@ -248,10 +251,14 @@ def emit(f):
               "clear_sets_length_first", "adopt_requires_no_allocation",
               "entities_macro_evaluates_size_once", "entities_macro_unchecked_arms_known",
               "iter_fold_folds_current_first", "iter_next_drains_current_first",
-              "alloc_get_checks_generation", "alloc_is_active_checks_generation", "resolution_sites_use_allocator"]:
+              "alloc_get_checks_generation", "alloc_is_active_checks_generation", "resolution_sites_use_allocator",
+              "views_consume_one_column_per_present_component"]:
         o.append("Definition fact_%s : bool := %s." % (k, b(f[k])))
     o.append("Definition world_literal_sites : list string := [%s]." % "; ".join('"%s"' % s for s in f["literal_sites"]))
     o.append("Definition batch_literal_sites : list string := [%s]." % "; ".join('"%s"' % s for s in f["batch_literal_sites"]))
+    o.append("(* the column pointer of the view walks: (file, view kind or None = not viewed, fn, consumes one column iff present) *)")
+    o.append("Definition advance_sites : list (string * string * string * bool) := [%s]." % ";\n  ".join(
+        '("%s", "%s", "%s", %s)' % (s_["file"], s_["kind"], s_["fn"], b(s_["ok"])) for s_ in f["advance_sites"]))
     o.append("(* every Vec rebuilt from raw parts and then grown/shrunk: (file::fn, calls, pointer and capacity() stored back) *)")
     o.append("Definition writeback_sites : list (string * string * bool) := [%s]." % ";\n  ".join(
         '("%s::%s", "%s", %s)' % (s_["file"], s_["fn"], ",".join(s_["calls"]), b(s_["written_back"])) for s_ in f["wb_sites"]))
@@ -474,6 +481,48 @@ def resolve_facts():
           and ".slots" not in eb[0] and ".slots" not in wb.get("entry", "") and ".slots" not in wb.get("remove", ""))
     f["resolution_sites_use_allocator"] = ok
     return f
+
+
+# ---------------------------------------------------------------------------------------------
+# The column pointer of the view walks (C03, C09)
+
+def advance_facts():
+    """registry/sealed/view.rs and par_view.rs: every impl consumes exactly one column for a component the archetype has
+    (viewed or not), and none for one it lacks — per impl and function."""
+    sites = []
+    for rel, trait, fns in (("src/registry/sealed/view.rs", "CanonicalViews", ("view", "view_one", "view_one_maybe_uninit")),
+                            ("src/registry/sealed/par_view.rs", "CanonicalParViews", ("par_view",))):
+        src = read(rel)
+        for h, b in impl_blocks(src):
+            hn = norm(h)
+            m = re.match(r"impl<'a,C,P,R,V>%s<'a,(\(.+?,V\)|V),\((.+?),P\)>for\(C,R\)" % trait, hn)
+            if not m:
+                continue
+            cont = m.group(2)
+            kind = {"&'aContained": "KRef", "&'amutContained": "KMut", "Option<&'aContained>": "KOptRef",
+                    "Option<&'amutContained>": "KOptMut", "NotContained": "None"}.get(cont)
+            if kind is None:
+                raise ParseFailure("%s: unknown containment %s" % (rel, cont))
+            for q, n, body in fn_bodies(b):
+                if n not in fns:
+                    continue
+                bn = norm(body)
+                rec = "R::%s(" % n
+                if kind in ("KRef", "KMut") and n != "view_one_maybe_uninit":
+                    ok = ("columns.get_unchecked(0)" in bn and re.search(re.escape(rec) + r"(index,)?columns\.get_unchecked\(1\.\.\),length,archetype_identifier,?\)", bn) is not None
+                          and "columns=" not in bn)
+                elif kind in ("KRef", "KMut", "KOptRef", "KOptMut"):
+                    ok = (bn.count("{letcolumn=columns.get_unchecked(0);columns=columns.get_unchecked(1..);column}") == 1
+                          and re.search(re.escape(rec) + r"(index,)?columns,length,archetype_identifier,?\)", bn) is not None
+                          and bn.count("columns=") == 1)
+                else:
+                    ok = (re.search(r"ifunsafe\{archetype_identifier\.next\(\)\.unwrap_unchecked\(\)\}\{unsafe\{columns=columns\.get_unchecked\(1\.\.\);\}\}unsafe\{"
+                                    + re.escape(rec) + r"(index,)?columns,length,archetype_identifier,?\)\}", bn) is not None and bn.count("columns=") == 1)
+                sites.append({"file": rel, "kind": kind, "fn": n, "ok": ok})
+    want = 5 * 3 + 5
+    if len(sites) != want:
+        raise ParseFailure("view impls: expected %d (impl, fn) sites, found %d" % (want, len(sites)))
+    return {"views_consume_one_column_per_present_component": all(s_["ok"] for s_ in sites), "advance_sites": sites}
 
 
 if __name__ == "__main__":
